@@ -107,6 +107,8 @@ pub enum ScopeKind {
     XFilter,
     XFoldl,
     XForeach,
+    /// body of an `if` branch or of a top-level `let`
+    Block,
 }
 
 impl Scope {
